@@ -4,10 +4,10 @@ import (
 	"context"
 	"fmt"
 	"os"
-	"time"
 	"sort"
 	"strings"
 	"testing/synctest"
+	"time"
 
 	"github.com/sourcenetwork/immutable"
 
